@@ -18,6 +18,9 @@ from ..core.values import K, T, Obj, TupleV, ListV, show, ClassRef
 MOD = 'timeutils'
 GRID_QUICK = (0.0, 1.0, 2.5)
 GRID_THOROUGH = (0.0, 1.0, 2.5, 4.0)
+FGRID = (0.1, 0.3, 1e9 + 0.7, 1e-7)
+APPROX = [False]
+LIMIT = [None]
 E1 = T('sym', 'split1')
 
 
@@ -271,6 +274,29 @@ def _case(ctx, cls, split_cls, method, state, tags, has_stop, has_dur,
             nontrivial.add(sig)
             if msg and bad is None:
                 bad = (msg, {show(k): v for k, v in val.items()}, nowvals)
+    if bad is None and method in ('elapsed', 'leftover', 'expired') and \
+            not has_split and state is not None:
+        # non-dyadic readings: results may differ from the reference in the
+        # last place, but the stated inequalities are exact
+        APPROX[0] = True
+        try:
+            for vals in itertools.product(FGRID, repeat=len(used)):
+                for nowvals in itertools.product(FGRID,
+                                                 repeat=min(n_now, 1)):
+                    val = dict(zip(used, vals))
+                    try:
+                        msg, sig = _compare(outcomes, val, nowvals, method,
+                                            state, has_stop, has_dur,
+                                            has_split, kw, syms, tags)
+                    except CannotEval as e:
+                        rep.undecided('R13.table', key, '%s: %s' % (label,
+                                                                    e))
+                        return
+                    if msg and bad is None:
+                        bad = (msg, {show(k): v for k, v in val.items()},
+                               nowvals)
+        finally:
+            APPROX[0] = False
     for sig in nontrivial:
         rep.case({'case': label, 'outcome': sig}, (label, sig))
     rep.check('R13.table', key, bad is None,
@@ -352,6 +378,7 @@ def _compare(outcomes, val, nowvals, method, state, has_stop, has_dur,
               if has_split else [],
               val.get(dur) if has_dur else None)
     args = {k: (val[maxi] if v == 'M' else v) for k, v in kw.items()}
+    LIMIT[0] = args.get('maximum') if method == 'elapsed' else None
     kind, want, snap = ref.call(method, args, nows)
     sig = '%s' % (kind if kind == 'raise' else 'return')
     fields, obj = o.state
@@ -446,6 +473,16 @@ def _cmp_value(v, want, val, obj, nows):
     if isinstance(want, bool) or want is None:
         if g is not want and not (isinstance(want, bool) and g == want and
                                   isinstance(g, bool)):
+            return 'returns %r, required %r' % (g, want)
+        return None
+    if APPROX[0] and isinstance(g, float) and isinstance(want, float):
+        import math
+        if g < 0:
+            return 'returns %r, which is negative' % (g,)
+        if LIMIT[0] is not None and g > max(0.0, LIMIT[0]):
+            return 'returns %r, which exceeds the requested maximum %r' % (
+                g, LIMIT[0])
+        if not math.isclose(g, want, rel_tol=1e-9, abs_tol=1e-15):
             return 'returns %r, required %r' % (g, want)
         return None
     if g != want:
